@@ -70,7 +70,7 @@ PROPS = {
     "C04": P(workloads="mq-conc wrap-slow-clone, view, steady and handle-churn (clones used by a helper thread and dropped while the original keeps receiving) with stalls inside clone / view closure; AddressSanitizer shards; Miri with the data-race detector (broadcast, mpmc single consumer)"),
     "C05": P(q=100, workloads="mq-seq with every teardown permutation, mq-conc teardown-orders / no-receiver / steady, AddressSanitizer shards, Miri with leak checking; one shard exercises the open finding (two streams on a move-out queue)"),
     "C06": P(workloads="quiescent probe after every mq-conc family; dedicated quiesce family"),
-    "C07": P(workloads="mq-conc last-sender (drops racing receives on shared and separate streams, blocking and non-blocking entry points)"),
+    "C07": P(workloads="mq-conc last-sender (drops racing receives on shared and separate streams, blocking and non-blocking entry points); mq-wake end phase (consumers blocked when all senders are dropped at the same instant)"),
     "C08": P(q=50, workloads="mq-wake: consumers blocked in recv / recv_view / blocking iterators under Busy / Yielding / Blocking strategies with default and zero spins; Miri slice (deadlock detector)"),
     "C09": P(q=200, t=2000, assumptions=SEQ_ASSUME, workloads="mq-seq random sequences of 300 calls over all eight handle families + exhaustive enumeration of a 14-command alphabet; Miri slice for UB on sequential paths"),
     "C10": P(workloads="mq-conc add-stream-sole and add-stream-shared with stalls between snapshot and publication"),
@@ -129,7 +129,10 @@ def jobs_for(prop, tier, seed):
         J += conc(prop, seed, ["quiesce", "quiesce", "steady", "remove-stream", "handle-churn", "add-stream-sole",
                                "last-sender", "view", "wrap-slow-clone"], n, s)
     elif prop == "C07":
-XX, ["conc", "--families", "last-sender", "--runs", "2"], ms, mt, {"*": "C07,C04,C16", "miri-deadlock": "C08"}, no_race=True, base=19))
+        J += conc(prop, seed, ["last-sender"], n - 3, s)
+        # "recv gives Err / iterators stop" for consumers that are *blocked* when the last sender goes
+        J += shard_jobs(prop, seed, ["wake"], 3, s, "wake", base=60)
+        J.append(miri(prop, seed, "lastsender", ["conc", "--families", "last-sender", "--runs", "2"], ms, mt, {"*": "C07,C04,C16", "miri-deadlock": "C08"}, no_race=True, base=19))
     elif prop == "C08":
         J += shard_jobs(prop, seed, ["wake"], n, s, "wake")
         J.append(miri(prop, seed, "wake", ["wake", "--runs", "2"], ms, mt, {"*": "C08", "miri-deadlock": "C08"}, no_race=True, base=23))
